@@ -80,6 +80,14 @@ def main():
                                                          ','.join(r.get('analysis_errors', [])), ','.join(r.get('rules', [])), extra, r.get('error', '')))
     print('%d/%d caught by the check of their own property' % (caught, len(results)))
     json.dump(results, open('/tmp/seedcheck.json', 'w'), indent=1)
+    if '--record' in sys.argv:
+        for r in results:
+            if r.get('error'):
+                continue
+            own = r.get('property') in r.get('violations', [])
+            st = 'reported' if own else ('cannot-decide' if r.get('property') in r.get('analysis_errors', []) else 'silent')
+            json.dump({'status': st, 'own_property': r.get('property'), 'reported_by_properties': r.get('violations', []), 'rules': r.get('rules', [])},
+                      open(os.path.join(VERIF, 'seeded', r['name'], 'expect.json'), 'w'), indent=1)
 
 
 if __name__ == '__main__':
